@@ -290,6 +290,15 @@ def rule_f(res, m):
             zero = any(pmatch("%s = 0" % acc[1]["X_n"], b) is not None for b in fn.body)
             ok = cleared and init and ret and zero and acc[0] in [x for b in i.orelse for x in ast.walk(b)]
     res.check(ok, "C14.f", "bits:sum-up-to-last-nonzero", where, "the bit count must add signed_exp_golomb_length(c) for every coefficient except the run of zeros at the end (scanning from the end, skipping zeros until the first non-zero value)", by="reverse scan; skip trailing zeros; += signed_exp_golomb_length(c)")
+    # C14.i: the size model is exact only if the run of 1 bits that ends the last counted code (its sign bit, the
+    # stop bit before it and a final 1 data bit) is not charged either: a bounded block reads 1s past its end, so those
+    # bits need not be stored, exactly like the trailing zero coefficients.  With the plain sum above an index is
+    # refused although its coefficients fit (witness: notes/witnesses/k10_*).
+    if ok:
+        n_acc = acc[1]["X_n"]
+        corrections = [a for a in ast.walk(fn) if (isinstance(a, ast.AugAssign) and dotted(a.target) == n_acc and a is not acc[0]) or (isinstance(a, ast.Assign) and any(dotted(t) == n_acc for t in a.targets) and norm(a.value) != "0")]
+        res.rule("C14.i", "the bit count of a bounded block does not charge the bits the decoder supplies for free: whole trailing zero coefficients (C14.f) and the trailing 1 bits of the last non-zero coefficient's code; a count that charges them makes the search skip an index whose coefficients fit")
+        res.check(bool(corrections), "C14.i", "calculate_coeffs_bits:trailing-one-bits-of-the-last-code-are-free", where, "the count adds the full signed_exp_golomb_length of the last non-zero coefficient and nothing takes its trailing 1 bits (sign bit of a negative value, the stop bit before it, a final 1 data bit) off again, although a bounded block supplies them: quantize_to_fit therefore refuses indices whose coefficients fit the budget", by="some statement other than the per-coefficient accumulation adjusts the count (exactness of the adjustment itself is not decided)")
     tgt = None
     for n in m.tree.body:
         if isinstance(n, ast.ImportFrom):
